@@ -25,7 +25,12 @@ RULE = ('hash/topic strings = structured perturbations of valid 40-hex / 32-base
         'metadata shape (single / multi-file / one-file directory / nested, private, source, md5sum, entropy, extra keys) x the '
         'magnet\'s own dn / xl / tr / ws / kt (absent, agreeing, disagreeing) x histories (before / after get_info, later changes '
         'of the fields, rejected assignment, caller edits an earlier result, another hash assigned), every result compared in '
-        'full (info section, infohash, validate(), trackers, webseeds, name, size, fallback hash). non-trivial = the string is valid or derived from a valid one by one '
+        'full (info section, infohash, validate(), trackers, webseeds, name, size, fallback hash); get_info() WHILE the magnet is '
+        'operated on: the error callback (called between two sources) and another thread (inside the loopback server\'s handler, '
+        'i.e. while a source is answering) re-assign xt / infohash (another hash, same hash in another notation, invalid value) '
+        'and xs / as_ / ws / tr (valid, removed, invalid) at every source position x matching / old-hash / unreadable / missing '
+        'torrents x tracker that serves what it is asked for x magnet with or without metadata x validate x a plain get_info() '
+        'afterwards. non-trivial = the string is valid or derived from a valid one by one '
         'perturbation (not junk); distinct = distinct (entry, prior, string) / scenario')
 
 PRIORS = {'hex-lower': 'cd' * 20, 'hex-upper': 'CD' * 20,
@@ -675,6 +680,440 @@ def eval_gih(ctx, drv, scs):
             if mpaths != ph['seen']:
                 ctx.corr_break('c14.getinfo', case, {'requests': mpaths}, ph)
                 break
+
+
+# ------------------------------------------------------------------ get_info() while the magnet is being changed
+# The error callback that get_info() calls between two sources (failed download, unreadable data) and another thread
+# (at a controlled point: inside the loopback server's handler, i.e. after the request was sent and before the answer is
+# looked at) operate on the magnet WHILE the call is running: xt / infohash re-assigned (another valid hash, the same
+# hash in another notation, an invalid value that raises), xs / as_ / ws / tr re-assigned (valid, removed, invalid) - at
+# every source position (xs, as_, each ws, each tr), with matching / non-matching / unreadable / missing torrents.
+# The hash that decides adoption is the one the magnet holds when the torrent arrives (C14_adopt_current_hash,
+# C14_arrival_decides); a tracker serves what is asked for ('asked') or a fixed payload.
+RUN_ORDER = {'xs': 0, 'as_': 1, 'ws': 2, 'tr': 3}
+RUN_PAYLOADS = ['A', 'B', 'garbage', 'notfound']
+RUN_BAD = ['', 'junk', 'ab' * 20 + 'z', 'ab' * 20 + '\n', 'urn:btih:', 'z' * 40, 'a' * 31, '0' * 32, 'urn:btih:' + 'ab' * 20 + ' ']
+
+
+def running_scenarios(ctx, scale=1.0):
+    rng = ctx.rng
+    sc = []
+
+    def add(sources, payloads, visits, **kw):
+        kw.setdefault('first', 'A')
+        kw.setdefault('n1', rng.choice(NOTATIONS))
+        kw.setdefault('validate', True)
+        kw.setdefault('cb', True)
+        kw.setdefault('pre', False)
+        vs = [{'during': list(v.get('during', [])), 'inCb': list(v.get('inCb', []))} for v in visits]
+        sc.append(dict(kw, sources=list(sources), payloads=list(payloads), visits=vs))
+
+    def newhash(who='B'):
+        return ['hash', rng.choice(['xt', 'infohash']), who, rng.choice(NOTATIONS), False]
+
+    pairs = [('xs', 'as_'), ('xs', 'ws'), ('xs', 'tr'), ('as_', 'ws'), ('as_', 'tr'), ('ws', 'ws'), ('ws', 'tr')]
+    for f, g in pairs:
+        for fail in ('notfound', 'garbage'):
+            for served in ('A', 'B'):
+                gp = ('asked' if served == 'A' else 'B') if g == 'tr' else served
+                # the callback for the failed source assigns another hash, then the next source answers
+                add([f, g], [fail, gp], [{'inCb': [newhash()]}, {}])
+                # ... another thread does while the next source is answering
+                add([f, g], [fail, gp], [{}, {'during': [newhash()]}], cb=rng.random() < 0.5)
+            # the same hash in another notation (metadata still wanted), 'urn:btih:' through xt
+            add([f, g], [fail, 'A' if g != 'tr' else 'asked'], [{'inCb': [['hash', 'xt', 'A', rng.choice(NOTATIONS), True]]}, {}])
+            # an invalid value raises inside the callback; an invalid value in the other thread is that thread's business
+            add([f, g], [fail, 'A' if g != 'tr' else 'A'], [{'inCb': [['bad', rng.choice(['xt', 'infohash']), rng.choice(RUN_BAD)]]}, {}])
+            add([f, g], [fail, 'A' if g != 'tr' else 'A'], [{'during': [['bad', rng.choice(['xt', 'infohash']), rng.choice(RUN_BAD)]]}, {}])
+            # the source fields are re-assigned while the call runs (valid, removed, invalid)
+            for what in ('alt', 'none', 'bad'):
+                act = ['badsrc', g] if what == 'bad' else ['src', g, {'alt': rng.choice(['altA', 'altB', 'http']), 'none': 'none'}[what]]
+                if act[0] == 'src' and g == 'tr' and act[2] in ('altA', 'altB'):
+                    act[2] = 'http'
+                if act[0] == 'src' and g != 'tr' and act[2] == 'http':
+                    act[2] = 'altB'
+                add([f, g], [fail, 'A' if g != 'tr' else 'asked'], [{'inCb': [act]}, {}])
+                add([f, g], [fail, 'B' if g != 'tr' else 'B'], [{'during': [act], 'inCb': [newhash()]}, {}])
+        # the magnet already holds metadata (adopted by an earlier call) when the call with the callback starts
+        for served in ('A', 'B'):
+            gp = ('asked' if served == 'A' else 'B') if g == 'tr' else served
+            add([f, g], ['notfound', gp], [{'inCb': [newhash()]}, {}], pre=True)
+            add([f, g], [served, gp], [{'during': [newhash()]}, {}], pre=True)
+    for g in ('xs', 'as_', 'ws', 'tr'):
+        for served in ('A', 'B'):
+            gp = ('asked' if served == 'A' else 'B') if g == 'tr' else served
+            for v in (True, False):
+                # a single source, the other thread assigns while it answers
+                add([g], [gp], [{'during': [newhash()]}], validate=v, cb=False)
+                add([g], [gp], [{'during': [newhash(), ['hash', 'infohash', 'A', rng.choice(NOTATIONS), False]]}], validate=v)
+    for _ in range(int(ctx.n(260, 4000) * scale)):
+        n = rng.randint(1, 5)
+        kinds = ['xs', 'as_'] + ['ws'] * 2 + ['tr'] * 2
+        rng.shuffle(kinds)
+        sources = sorted(kinds[:n], key=lambda k: RUN_ORDER[k])
+        trp = rng.choice(['asked', 'asked', 'A', 'B', 'garbage', 'notfound'])
+        payloads = [trp if k == 'tr' else rng.choice(RUN_PAYLOADS) for k in sources]
+        if rng.random() < 0.5:
+            # make failures likelier in front so that callbacks and later sources are reached
+            for i in range(len(payloads) - 1):
+                if sources[i] != 'tr' and rng.random() < 0.6:
+                    payloads[i] = rng.choice(['notfound', 'garbage'])
+
+        def act():
+            r = rng.random()
+            if r < 0.6:
+                return ['hash', rng.choice(['xt', 'infohash']), rng.choice(['A', 'B', 'B', 'C']), rng.choice(NOTATIONS), rng.random() < 0.3]
+            if r < 0.75:
+                return ['bad', rng.choice(['xt', 'infohash']), rng.choice(RUN_BAD)]
+            if r < 0.95:
+                fld = rng.choice(['xs', 'as_', 'ws', 'tr'])
+                return ['src', fld, rng.choice(['none', 'http', 'udp', 'both'] if fld == 'tr' else ['none', 'altA', 'altB', 'alt404'])]
+            return ['badsrc', rng.choice(['xs', 'as_', 'ws', 'tr'])]
+        visits = []
+        for _k in sources:
+            visits.append({'during': [act() for _ in range(rng.choice([0, 0, 0, 1, 1, 2]))],
+                           'inCb': [act() for _ in range(rng.choice([0, 1, 1, 2]))]})
+        add(sources, payloads, visits, first=rng.choice(['A', 'A', 'B']), validate=rng.random() < 0.85,
+            cb=rng.random() < 0.85, pre=rng.random() < 0.2)
+    return sc
+
+
+def _run_route_lookup(routes, path):
+    for prefix, label in routes:
+        if path.startswith(prefix):
+            return label
+    return 'notfound'
+
+
+def _run_running_chunk(scs):
+    import random
+    torf = common.import_torf()
+    srv = mg.TorrentServer()
+    out = []
+    try:
+        tA, ihA = _mk_torrent(torf, 'matching')
+        tB, ihB = _mk_torrent(torf, 'other')
+        bodies = {'A': (200, tA), 'B': (200, tB), 'garbage': (200, b'this is not bencoded'), 'notfound': (404, b'')}
+        base = f'http://127.0.0.1:{srv.port}'
+        for s in scs:
+            rng = random.Random(s['seed'])
+            ihC = ''.join(rng.choice('0123456789abcdef') for _ in range(40))
+
+            def spell(who, notation):
+                hx = {'A': ihA, 'B': ihB, 'C': ihC}[who]
+                nots = mg.notations(hx)
+                nots['hex-mixed'] = mg.randcase(rng, hx)
+                nots['b32-mixed'] = mg.randcase(rng, nots['b32-upper'])
+                return nots[notation]
+
+            def resolve(a):
+                """(field, value, valid?) of an operation"""
+                if a[0] == 'hash':
+                    return [a[1], ('urn:btih:' if a[4] else '') + spell(a[2], a[3]), None]
+                if a[0] == 'bad':
+                    return [a[1], a[2], None]
+                if a[0] == 'badsrc':
+                    return [a[1], 'no url at all' if a[1] in ('xs', 'as_') else [f'{base}/altA/t', 'no url at all'], False]
+                fld, what = a[1], a[2]
+                if fld in ('xs', 'as_'):
+                    return [fld, None if what == 'none' else f'{base}/{what}/t.torrent', True]
+                if fld == 'ws':
+                    return [fld, [] if what == 'none' else [f'{base}/{what}/t'], True]
+                return [fld, {'none': [], 'http': [f'{base}/announce/new'], 'udp': ['udp://127.0.0.1:9/announce'],
+                              'both': ['udp://127.0.0.1:9/announce', f'{base}/announce/new']}[what], True]
+            own = spell(s['first'], s['n1'])
+            kw = {'ws': [], 'tr': []}
+            for k, kind in enumerate(s['sources']):
+                if kind == 'tr':
+                    kw['tr'].append(f'{base}/announce/{k}')
+                elif kind == 'ws':
+                    kw['ws'].append(f'{base}/s{k}/t')
+                else:
+                    kw[kind] = f'{base}/s{k}/t.torrent'
+            # what every path serves: (path prefix, label), first match wins
+            routes = []
+            for k, (kind, p) in enumerate(zip(s['sources'], s['payloads'])):
+                if kind != 'tr':
+                    routes.append([f'/s{k}/t', p])
+            trp = next((p for kind, p in zip(s['sources'], s['payloads']) if kind == 'tr'), 'asked')
+            if trp == 'asked':
+                for lab, hx in (('A', ihA), ('B', ihB)):
+                    routes.append(['/file?info_hash=' + urllib.parse.quote_from_bytes(bytes.fromhex(hx)), lab])
+            else:
+                routes.append(['/file?info_hash=', trp])
+            routes += [['/altA/t', 'A'], ['/altB/t', 'B']]
+            visits = [{'during': [resolve(a) for a in v['during']], 'inCb': [resolve(a) for a in v['inCb']]} for v in s['visits']]
+            res = {'scenario': s, 'own': own, 'kw': kw, 'ihA': ihA, 'ihB': ihB, 'ihC': ihC, 'port': srv.port, 'routes': routes,
+                   'visits': visits}
+            try:
+                m = torf.Magnet(own, **kw)
+            except BaseException as e:  # noqa
+                res['setup_exc'] = repr(e)
+                out.append(res)
+                continue
+
+            def tq():
+                try:
+                    t = m.torrent()
+                    return {'torrent_infohash': t.infohash, 'has_pieces': 'pieces' in t.metainfo['info']}
+                except BaseException as e:  # noqa
+                    return {'torrent_infohash': 'raised:' + type(e).__name__, 'has_pieces': None}
+
+            def fields():
+                return {'infohash': m.infohash, 'xs': None if m.xs is None else str(m.xs), 'as_': None if m.as_ is None else str(m.as_),
+                        'ws': [str(u) for u in m.ws], 'tr': [str(u) for u in m.tr]}
+            if s['pre']:
+                srv.hook = None
+                srv.routes.clear()
+                srv.routes['/'] = bodies[s['first']]
+                try:
+                    m.get_info(timeout=10)
+                except BaseException:  # noqa
+                    pass
+                res['pre'] = tq()
+            srv.routes.clear()
+            for prefix, lab in routes:
+                srv.routes[prefix] = bodies[lab]
+
+            def call(vis, with_cb):
+                log = []
+
+                def perform(tag, idx, acts, stop):
+                    for fld, value, _valid in acts:
+                        try:
+                            setattr(m, fld, value)
+                            err = None
+                        except BaseException as e:  # noqa
+                            err = mg.errkind(e)
+                            if stop:
+                                log.append([tag, idx, fld, value, err, _valid])
+                                raise
+                        log.append([tag, idx, fld, value, err, _valid])
+
+                def hook(idx, path):
+                    log.append(['req', idx, path])
+                    if idx < len(vis):
+                        perform('thr', idx, vis[idx]['during'], False)
+
+                def callback(e):
+                    idx = len(srv.seen) - 1
+                    log.append(['cb', idx, 'connection' if type(e).__name__ == 'ConnectionError' else 'read'])
+                    if idx < len(vis):
+                        perform('cbact', idx, vis[idx]['inCb'], True)
+                srv.seen.clear()
+                srv.hook = hook
+                try:
+                    r = bool(m.get_info(validate=s['validate'], timeout=10, callback=callback if with_cb else None))
+                except BaseException as e:  # noqa
+                    r = 'raised:' + mg.errkind(e)
+                finally:
+                    srv.hook = None
+                return {'result': r, 'seen': list(srv.seen), 'log': log, 'fields': fields(), 'torrent': tq()}
+            res['calls'] = [call(visits, s['cb']), call([], True)]
+            out.append(res)
+    finally:
+        srv.close()
+    return out
+
+
+def _running_judge(res, judged, rule):
+    """The property, read directly, over the event log of the calls: every assignment is judged on its own (rejected =>
+    error and nothing changes); a readable torrent that arrives is adopted iff (validating) its infohash is the 40-digit
+    form of the hash the magnet holds AT THAT MOMENT, otherwise MetainfoError; the call ends there; afterwards
+    torrent().infohash is the form of the hash held now and metadata is present iff adopted and not forgotten.
+    `rule`: when an accepted assignment forgets adopted metadata (see _gih_stages).  Returns a list of
+    (stage, expected, observed) that do not hold."""
+    s = res['scenario']
+    hexes = {'A': res['ihA'], 'B': res['ihB']}
+    own = judged[('infohash', res['own'])]
+    cur, cur_hex = res['own'], mg.uncps(own['base16'])
+    held = None
+    bad = []
+    if s['pre']:
+        held = hexes[s['first']]
+        if res['pre'] != {'torrent_infohash': held, 'has_pieces': True}:
+            return [('get_info() before the run (matching torrent at every source)', {'torrent_infohash': held, 'has_pieces': True}, res['pre'])]
+    for ci, c in enumerate(res['calls']):
+        name = 'get_info() with interleaved operations' if ci == 0 else 'the next plain get_info()'
+        pending, ended, cb_raised = None, None, None
+
+        def settle():
+            nonlocal pending, ended, held
+            if pending is not None and pending in hexes:
+                if s['validate'] and hexes[pending] != cur_hex:
+                    ended = 'raised:metainfo'
+                else:
+                    held, ended = hexes[pending], True
+            pending = None
+        for ev in c['log']:
+            if ev[0] in ('req', 'cb'):
+                settle()
+            if ended is not None or cb_raised is not None:
+                bad.append((name + ': the call went on after it had to end (a readable torrent had arrived / the callback raised)',
+                            {'ends': ended if ended is not None else 'raised:' + cb_raised}, {'next_event': ev}))
+                return bad
+            if ev[0] == 'req':
+                pending = _run_route_lookup(res['routes'], ev[2])
+            elif ev[0] in ('thr', 'cbact'):
+                fld, value, err = ev[2], ev[3], ev[4]
+                if fld in ('xt', 'infohash'):
+                    j = judged[(fld, value)]
+                    exp = None if j['accept'] else 'magnet'
+                    if exp is None:
+                        new, new_hex = mg.uncps(j['state']), mg.uncps(j['base16'])
+                        if {'string': new != cur, 'number': new_hex != cur_hex, 'accepted': True}[rule]:
+                            held = None
+                        cur, cur_hex = new, new_hex
+                else:
+                    exp = None if ev[5] else 'url'
+                if err != exp:
+                    bad.append((name + ': an assignment made while the call was running was judged wrongly',
+                                {'field': fld, 'value': value, 'error': exp}, {'field': fld, 'value': value, 'error': err}))
+                    return bad
+                if err is not None and ev[0] == 'cbact':
+                    cb_raised = err
+        settle()
+        if ended is not None:
+            results = [ended]
+        elif cb_raised is not None:
+            results = ['raised:' + cb_raised, bool(held)]     # the property does not say what happens to an exception of the callback
+        else:
+            results = [bool(held)]
+        exp = {'result': results[0] if len(results) == 1 else results, 'infohash': cur,
+               'torrent': {'torrent_infohash': held or cur_hex, 'has_pieces': bool(held)}}
+        got = {'result': c['result'], 'infohash': c['fields']['infohash'], 'torrent': c['torrent']}
+        if c['result'] not in results or got['infohash'] != cur or got['torrent'] != exp['torrent']:
+            if held and got['torrent'].get('has_pieces'):
+                got['magnet_holds_hex'] = cur_hex
+            bad.append((name, exp, got))
+            return bad
+    return bad
+
+
+def _run_model_act(a):
+    fld, value = a[0], a[1]
+    if fld in ('xt', 'infohash'):
+        return {'k': fld, 'v': mg.cps(value)}
+    if a[2] is False:
+        return {'k': 'urlRejected'}
+    if fld in ('xs', 'as_'):
+        return {'k': fld, 'v': mg.ocps(value)}
+    if fld == 'ws':
+        return {'k': 'ws', 'v': [mg.cps(u) for u in value]}
+    return {'k': 'tr', 'tr': _tr_pairs(value)}
+
+
+def _tr_pairs(urls):
+    out = []
+    for u in urls:
+        p = urllib.parse.urlparse(u)
+        out.append([mg.cps(p.scheme), mg.cps(p.netloc)])
+    return out
+
+
+def eval_running(ctx, drv, scs):
+    for i, s in enumerate(scs):
+        s.setdefault('seed', ctx.seed * 100043 + i)
+    results = [o for ch in common.pmap(_run_running_chunk, common.split(scs, min(common.NPROC, 8))) for o in ch]
+    # every assignment judged on its own (fresh object) + the 40-digit form of every hash involved
+    keys = {}
+    for res in results:
+        if 'setup_exc' in res:
+            continue
+        keys[('infohash', res['own'])] = None
+        for v in res['visits']:
+            for a in v['during'] + v['inCb']:
+                if a[0] in ('xt', 'infohash'):
+                    keys[(a[0], a[1])] = None
+    klist = list(keys)
+    judged = {k: r['spec'] for k, r in zip(klist, drv.run([{'op': 'c14.hash', 'v': mg.cps(v), 'prior': None, 'entry': e}
+                                                            for e, v in klist]))}
+    reqs = []
+    for res in results:
+        if 'setup_exc' in res:
+            continue
+        s, kw = res['scenario'], res['kw']
+        base = f'http://127.0.0.1:{res["port"]}'
+        hexes = {'A': res['ihA'], 'B': res['ihB']}
+        world = [[mg.cps(base + prefix), ({'kind': 'torrent', 'infohash': mg.cps(hexes[lab]), 'nonEmpty': True} if lab in hexes else
+                                          {'kind': 'unreadable' if lab == 'garbage' else 'connError'})] for prefix, lab in res['routes']]
+        visits = [{'during': [_run_model_act(a) for a in v['during']], 'inCb': [_run_model_act(a) for a in v['inCb']]}
+                  for v in res['visits']]
+        reqs.append({'op': 'c14.running', 'ih': mg.cps(res['own']), 'info': mg.cps(hexes[s['first']]) if s['pre'] else None,
+                     'xs': mg.ocps(kw.get('xs')), 'as_': mg.ocps(kw.get('as_')), 'ws': [mg.cps(u) for u in kw['ws']],
+                     'tr': _tr_pairs(kw['tr']),
+                     'calls': [{'validate': s['validate'], 'hasCb': s['cb'], 'world': world, 'visits': visits},
+                               {'validate': s['validate'], 'hasCb': True, 'world': world, 'visits': []}]})
+    reps = iter(drv.run(reqs))
+    for res in results:
+        s = res['scenario']
+        case = dict(s, kind='running')
+        nacts = sum(len(v['during']) + len(v['inCb']) for v in s['visits'])
+        ctx.case(key=('running', json.dumps({k: v for k, v in s.items() if k != 'seed'}, sort_keys=True)), nontrivial=nacts > 0,
+                 kind='running/%s/%s' % ('+'.join(s['sources']), 'cb' if s['cb'] else 'nocb'))
+        if 'setup_exc' in res:
+            ctx.machinery_error('running scenario could not be set up: ' + res['setup_exc'], case)
+            continue
+        r = next(reps)
+        case.update(own=res['own'], magnet=res['kw'], served=res['routes'],
+                    operations=[{'during': [a[:2] for a in v['during']], 'in_callback': [a[:2] for a in v['inCb']]} for v in res['visits']])
+        performed = sum(1 for c in res['calls'] for ev in c['log'] if ev[0] in ('thr', 'cbact'))
+        if performed:
+            ctx.dist['running:operations performed while get_info() was running'] += performed
+        if any(ev[0] == 'cbact' and ev[2] in ('xt', 'infohash') and ev[4] is None for ev in res['calls'][0]['log']):
+            ctx.dist['running:hash re-assigned by the callback'] += 1
+        if any(ev[0] == 'thr' and ev[2] in ('xt', 'infohash') and ev[4] is None for ev in res['calls'][0]['log']):
+            ctx.dist['running:hash re-assigned by another thread while a source was answering'] += 1
+        bad = _running_judge(res, judged, 'string')
+        if bad:
+            for rule in ('number', 'accepted'):
+                if not _running_judge(res, judged, rule):
+                    ctx.dist['running:metadata forgotten by rule "%s" (allowed by the property)' % rule] += 1
+                    bad = []
+                    break
+        if ctx.dist['sampled-running'] < 2 and performed >= 2:
+            ctx.dist['sampled-running'] += 1
+            ctx.sample({'case': case, 'impl': [{k: c[k] for k in ('result', 'seen', 'torrent')} for c in res['calls']]}, limit=12)
+        if bad:
+            name, exp, got = bad[0]
+            ctx.violation('get_info() while the magnet is re-assigned (by the error callback between two sources / by another thread '
+                          'while a source is answering): fetched metadata must be adopted exactly when its infohash denotes the hash '
+                          'the magnet holds when the torrent arrives, and torrent().infohash must be the 40-digit form of the hash '
+                          'held now - stage "%s"' % name, case, dict(exp, stage=name) if isinstance(exp, dict) else exp,
+                          dict(got, stage=name, events=[c['log'] for c in res['calls']]), finding_matchers=MATCHERS)
+            continue
+        # --- model against specification (C14_getinfo_running_spec / C14_calls_running_spec), the proved invariant
+        #     (C14_adopt_current_hash_calls) and the implementation
+        if r['hyp'] and r['model'] != r['spec']:
+            ctx.machinery_error('running get_info model differs from the specification although C14_calls_running_spec is proved',
+                                {'case': case, 'model': r['model'], 'spec': r['spec']})
+            continue
+        if r['hypAdopt'] and not all(x['ok'] for x in r['model']):
+            ctx.machinery_error('model state violates "held metadata denotes the hash held" although C14_adopt_current_hash_calls is proved',
+                                {'case': case, 'model': r['model']})
+            continue
+        base = f'http://127.0.0.1:{res["port"]}'
+
+        def path(u):
+            p = urllib.parse.urlsplit(mg.uncps(u))
+            return p.path + ('?' + p.query if p.query else '')
+        m_obs, i_obs = [], []
+        for x, c in zip(r['model'], res['calls']):
+            t = x['torrent']
+            m_obs.append({'result': ('raised:' + x['err']) if x['err'] is not None else x['info'] is not None,
+                          'requests': [path(u) for u in x['requested']], 'callbacks': [path(u) for u in x['cbs']],
+                          'other_thread': x['thr'],
+                          'fields': {'infohash': mg.uncps(x['hash']), 'xs': mg.uncps(x['src']['xs']), 'as_': mg.uncps(x['src']['as_']),
+                                     'ws': [mg.uncps(u) for u in x['src']['ws']], 'tr': x['src']['tr']},
+                          'torrent': {'torrent_infohash': mg.uncps(t['base16'].get('ok')) if 'base16' in t else None,
+                                      'has_pieces': t.get('withInfo')}})
+            thr = [[ev[4] for ev in c['log'] if ev[0] == 'thr' and ev[1] == k] for k in range(len(c['seen']))]
+            i_obs.append({'result': c['result'], 'requests': c['seen'],
+                          'callbacks': [c['seen'][ev[1]] for ev in c['log'] if ev[0] == 'cb'],
+                          'other_thread': thr,
+                          'fields': dict(c['fields'], tr=_tr_pairs(c['fields']['tr'])), 'torrent': c['torrent']})
+        if m_obs != i_obs:
+            ctx.corr_break('c14.running', case, m_obs, i_obs)
 
 
 # ------------------------------------------------------------------ xl
@@ -1505,6 +1944,12 @@ def run(ctx, drv):
         'get_info: download outcomes are parameters of the model (connection error / unreadable / torrent with infohash); '
         'timeouts never expire in the scenarios; Torrent.infohash of a served torrent is 40 lower-case hex digits; adopted '
         'metadata is represented by the infohash of the torrent it was taken from',
+        'get_info() with interleaved operations: the world (URL prefix -> what is served), the operations of the callback per '
+        'source position and of the other thread per source position are inputs of the model; the other thread acts after the '
+        'request was sent and before the answer is looked at (realised inside the server handler: get_info() is blocked in '
+        'read() meanwhile); accepted assignments to xs/as_/ws/tr are given to the model as the stored values (C14_urls is about '
+        'their validation); what happens to an exception leaving the callback and how many sources are consulted while '
+        'metadata is held are fixed by the model only',
         'when adopted metadata is forgotten: the model follows the code (stored string changes); the property is met by any rule '
         'between "the denoted hash changes" and "every accepted assignment"; get_info() on a magnet that still holds metadata is '
         'fixed by the model only (judged weakly against the property)',
@@ -1523,6 +1968,7 @@ def run(ctx, drv):
     eval_urls(ctx, drv, url_cases(ctx))
     eval_getinfo(ctx, drv, getinfo_scenarios(ctx))
     eval_gih(ctx, drv, gih_scenarios(ctx))
+    eval_running(ctx, drv, running_scenarios(ctx))
     eval_adopt(ctx, drv, adopt_scenarios(ctx))
     ctx.exhaustive = False
     for f in ctx.open_findings():
@@ -1537,6 +1983,7 @@ def search(ctx, drv):
     eval_urls(ctx, drv, url_cases(ctx, scale=3.0))
     eval_getinfo(ctx, drv, getinfo_scenarios(ctx, scale=3.0))
     eval_gih(ctx, drv, gih_scenarios(ctx, scale=3.0))
+    eval_running(ctx, drv, running_scenarios(ctx, scale=3.0))
     eval_adopt(ctx, drv, adopt_scenarios(ctx, scale=3.0))
 
 
@@ -1548,6 +1995,9 @@ def _eval_case(ctx, drv, c):
     elif k == 'getinfo-history':
         eval_gih(ctx, drv, [{key: c[key] for key in ('first', 'n1', 'sources', 'p1', 'reassign', 'p2', 'validate', 'tq', 'seed')
                              if key in c}])
+    elif k == 'running':
+        eval_running(ctx, drv, [{key: c[key] for key in ('first', 'n1', 'sources', 'payloads', 'visits', 'validate', 'cb', 'pre', 'seed')
+                                 if key in c}])
     elif k == 'hash':
         if 'history' in c:
             h = c['history']
